@@ -99,7 +99,9 @@ func (p ParallelBatchParser[T]) processAsync(batches []string, work func(int, st
 		go func(batchIndex int, batchText string) {
 			defer wg.Done()
 			result := work(batchIndex, batchText)
+			verifBeforeSend(batchIndex)
 			resultChannel <- result
+			verifAfterSend(batchIndex)
 		}(i, b)
 	}
 
